@@ -1,5 +1,6 @@
 import SJ.Properties.C18
 import SJ.Proofs.SourceLevelA
+import SJ.Proofs.SourceLevelF
 set_option linter.unusedVariables false
 /-
 C18 — source level. The theorems of Properties/C18.lean composed with the source ties of DESIGN §6.3: each statement
@@ -30,5 +31,38 @@ theorem C18_source_nonfinite (dst : Bytes) (bits : UInt64) (fuel : Nat) (tape : 
     ∃ st, runFun goFuns goappendFloat fuel ⟨[("dst", .bytes dst), ("f", .u64 bits)], tape⟩ =
         .ret st [.bytes #[], .bool true] ∧ st.tape = tape :=
   SJ.SourceLevelA.C18_source_nonfinite dst bits fuel tape hf hfin
+
+open SJ.Generated SJ.GoSem SJ.GoIter SJ.GoSet SJ.Layout SJ.SourceLevelF SJ.FloatFmt SJ.FloatFmtProofs SJ.Spec SJ.F64 SJ.F64Round SJ.GoFloatFmt in
+/-- **What `appendFloat` prints, digit for digit, source level** (`C18_shortest_roundtrip`, `C18_fmtF_value`, `C18_fmtE_value` ∘
+    the `appendFloat` tie `C18_format_follows_source`).  For every finite, non-zero float64 bit pattern, with `abs` the
+    pattern without its sign bit: running `appendFloat(dst, f)` of `parsed_json.go` (with `appendFloatF`, `fmtF`, as printed
+    from /repo) returns `dst ++ txt` and `nil`, where
+    * `txt` is a number literal of the RFC 8259 grammar, nothing left over;
+    * its sign is the float's sign bit;
+    * its decimal value is EXACTLY `0.d₁d₂…dₙ × 10^dp` (`SameDecimal`: equal as rationals, not merely after rounding) for the
+      digit string `d₁…dₙ`, `dp` that the shortest-digits contract of `ryuFtoaShortest` / `strconv.AppendFloat(…,'e',-1,64)`
+      yields for `abs` (`FloatFmt.shortest`: the routines the Go code calls from the standard library, specified, not
+      translated — the tie takes them by this contract too): neither the plain form (`fmtF`, with its zero padding) nor the
+      exponent form (`fmtE` and the `e-0N` clean-up) adds, drops or alters a significant digit;
+    * that digit string is well formed — not empty, decimal digits, first digit non-zero — and, correctly rounded, reads
+      back to exactly `abs`.
+    This is what the three property theorems give beyond `C18_source_roundtrip` (which only says that the text rounds back
+    to the float): the identification of the printed decimal with the contract's digits, and the sign.  NOT given by any
+    property theorem, hence not stated: that the digit string has at most 17 digits, and that no shorter digit string
+    rounds to the float (`shortest` searches lengths 1, 2, … and takes the first hit, but no theorem of `Properties/C18`
+    states minimality).
+    Discharged: the exponent bound `|dp − 1| < 10^7` of `C18_fmtE_value` (from the magnitude guards of `roundDecimal`,
+    `roundDecimal_some`), finiteness and the 63-bit bound of `abs`.  Remaining: `fuelOK`, the interpreter's loop budget. -/
+theorem C18_source_shortest (dst : Bytes) (bits : UInt64) (fuel : Nat) (tape : Array UInt64)
+    (hf : fuelOK fuel bits) (hfin : F64.isFinite bits = true) (h0 : bits &&& 0x7fffffffffffffff ≠ 0) :
+    ∃ txt l st ds dp, runFun goFuns goappendFloat fuel ⟨[("dst", .bytes dst), ("f", .u64 bits)], tape⟩ =
+        .ret st [.bytes (dst ++ txt), .bool false] ∧ st.tape = tape ∧
+      Spec.numberLit txt.toList = some (l, []) ∧
+      (litValue l).1 = ((bits >>> 63) != 0) ∧
+      shortest (bits &&& 0x7fffffffffffffff) = { digits := ds, dp := dp } ∧
+      ds ≠ [] ∧ (∀ d ∈ ds, d < 10) ∧ ds.head? ≠ some 0 ∧
+      SameDecimal (litValue l).2.1 (litValue l).2.2 (natOfDigits ds) (dp - ds.length) ∧
+      F64.roundDecimal false (natOfDigits ds) (dp - ds.length) = some (bits &&& 0x7fffffffffffffff) :=
+  SJ.SourceLevelF.C18_source_shortest dst bits fuel tape hf hfin h0
 
 end SJ.Properties.C18
